@@ -71,13 +71,21 @@ def build_units(rng, units_mod, spec=None):
         for i in range(rng.randrange(1, 7)):
             parent = rng.randrange(-1, len(out) + len(plan))       # -1: fresh root
             k = rng.choice([2.0, 0.5, 10.0, 12.0, 3.0, 0.3048, 1e3, 1e-3, 1609.344, -1.0, rng.uniform(0.01, 100)])
-            plan.append([parent, k])
-    for parent, k in plan:
+            plan.append([parent, k] + ([1] if rng.random() < 0.2 else []))
+    for parent, k, *via in plan:
         if parent < 0:
             unit = U.Unit(base_unit=None, base_to_unit=lambda x: None, unit_to_base=lambda x: None)
             out.append(Chain(unit, Fraction(1), f"r{len(out)}", 0, f"root{len(out)}"))
         else:
             p = out[parent]
+            if via:
+                # a unit whose own callables are written with convert() (a yard expressed through the stock foot): a
+                # conversion inside a conversion
+                unit = U.Unit(base_unit=p.unit, base_to_unit=(lambda x, k=k: U.convert(U.foot, U.inch, x) / (12 * k)),
+                              unit_to_base=(lambda x, k=k: U.convert(U.inch, U.foot, x * 12) * k))
+                desc = f"{p.desc}*{k!r}(via convert)"
+                out.append(Chain(unit, p.factor * Fraction(k), p.root, p.depth + 4, desc))
+                continue
             if (len(out) + int(abs(k) * 7)) % 3 == 0:
                 unit = U.Unit(p.unit, (lambda x, k=k: x / k), (lambda x, k=k: x * k))       # positionally, in the documented order
             else:
@@ -113,6 +121,8 @@ def run_units_case(acc, U, case):
     chains, plan = build_units(rng, U, case.get("plan"))
     case = dict(case)
     case["plan"] = plan
+    if any(len(p_) > 2 for p_ in plan):
+        acc.ev("unit-whose-callables-use-convert")
     if case["kind"] == "triples":
         for a, b, c in itertools.product(chains[:4], repeat=3):
             for x in VALUES:
